@@ -477,12 +477,30 @@ fn emit_fn(out: &mut Value, req: &Value, sig: &Signature, block: &Block, impl_hd
     // optional nested slice (N11): one inner statement becomes the body
     if let Some(anchor) = req["slice_stmt"].as_str() {
         match norm::find_stmt(&b, anchor, req["slice_nth"].as_u64().unwrap_or(1) as usize) {
-            Some(st) => {
+            Some((st, ctx)) => {
                 let st = match st {
                     Stmt::Expr(e, None) => Stmt::Expr(e, Some(Default::default())),
                     other => other,
                 };
                 let mut stmts = vec![st];
+                // N11b: carry the enclosing `let`s the slice depends on (beyond the parameters of the slice signature)
+                if let Some(sigtxt) = req["slice_sig"].as_str() {
+                    if let Ok(f) = syn::parse_str::<ItemFn>(&format!("{} {{}}", sigtxt)) {
+                        let mut params = vec![];
+                        for a in f.sig.inputs.iter() {
+                            if let FnArg::Typed(pt) = a {
+                                norm::pat_idents(&pt.pat, &mut params);
+                            }
+                        }
+                        let lets = norm::needed_lets(&stmts, &ctx, &params);
+                        if !lets.is_empty() {
+                            n.log("N11b-slice-carries-lets", sig.ident.span());
+                            let mut pre: Vec<Stmt> = lets.into_iter().map(Stmt::Local).collect();
+                            pre.append(&mut stmts);
+                            stmts = pre;
+                        }
+                    }
+                }
                 if let Some(tail) = req["slice_tail"].as_str() {
                     let te: Expr = syn::parse_str(tail).expect("slice_tail");
                     stmts.push(Stmt::Expr(te, None));
